@@ -277,6 +277,30 @@ Proof.
 Qed.
 
 (* everything the compiler produced, in one statement *)
+(* ---- parser.rs insert_win_stack_info = win_insert (the model keeps the vector reversed: head = last_mut()) *)
+Lemma src_insert_win_stack_info_eq p v w :
+  u64 (w_addr w) -> 0 <= w_size w -> Forall (fun e : range * win_rec => 0 <= w_addr (snd e)) v ->
+  src_insert_win_stack_info p v w = do acc <- win_insert (rev v) w; Ret (rev acc).
+Proof.
+  intros [Ha0 Ha1] Hs Hv. unfold src_insert_win_stack_info, win_insert, vec_last_split.
+  rewrite src_win_memory_range_eq by assumption. cbn [obind].
+  destruct (win_range w) as [mr|]; [|cbn [obind]; rewrite rev_involutive; reflexivity].
+  destruct (rev v) as [|[lr lw] t] eqn:Erev.
+  - cbn [obind rev app]. rewrite <- (rev_involutive v), Erev. reflexivity.
+  - assert (Hlw : 0 <= w_addr lw).
+    { rewrite Forall_forall in Hv. apply (Hv (lr, lw)). apply in_rev. rewrite Erev. left. reflexivity. }
+    assert (Ev : v = rev t ++ [(lr, lw)]) by (rewrite <- (rev_involutive v), Erev; reflexivity).
+    destruct (intersects lr mr).
+    + destruct (w_addr w >? w_addr lw) eqn:Eg.
+      * apply Z.gtb_lt in Eg. rewrite chk_sub_ok by lia. cbn [obind].
+        rewrite src_win_memory_range_eq; [|cbn; lia|cbn; apply Z.mod_pos_bound; reflexivity].
+        cbn [obind]. unfold win_set_size.
+        destruct (win_range (mk_win (w_addr lw) (wrap32 (w_addr w - w_addr lw)) (w_psize lw) (w_tag lw))) as [lr'|];
+          cbn [opt_unwrap obind rev]; reflexivity.
+      * destruct (negb (range_eqb lr mr)); cbn [obind rev]; reflexivity.
+    + cbn [obind rev]. rewrite <- Ev. reflexivity.
+Qed.
+
 (* the table built with the compiled finish_item arm (Driver.table_of_src) is build_symtab *)
 From RM Require C11.Driver.
 Lemma src_finish_funcs_eq p l : forall acc, Forall wf_fraw l ->
@@ -293,14 +317,42 @@ Proof.
   destruct (finish_funcs_gen true t) as [rest| | |]; cbn [obind]; try reflexivity.
   destruct x; rewrite <- ?app_assoc, ?app_nil_r; reflexivity.
 Qed.
+Definition addr_nonneg (e : range * win_rec) : Prop := 0 <= w_addr (snd e).
+Lemma win_insert_addr acc w acc' :
+  Forall addr_nonneg acc -> 0 <= w_addr w -> win_insert acc w = Ret acc' -> Forall addr_nonneg acc'.
+Proof.
+  intros Hacc Hw. unfold win_insert. destruct (win_range w) as [mr|]; [|intros H; inversion H; subst; exact Hacc].
+  destruct acc as [|[lr lw] t]; [intros H; inversion H; subst; constructor; [exact Hw|constructor]|].
+  inversion Hacc as [|? ? Hlw Ht]; subst. unfold addr_nonneg in Hlw. cbn [snd] in Hlw.
+  destruct (intersects lr mr).
+  - destruct (w_addr w >? w_addr lw).
+    + destruct (win_range _) as [lr'|]; [|discriminate]. intros H; inversion H; subst.
+      constructor; [exact Hw|]. constructor; [exact Hlw|exact Ht].
+    + destruct (negb (range_eqb lr mr)); intros H; inversion H; subst; [exact Hacc|constructor; [exact Hw|exact Hacc]].
+  - intros H; inversion H; subst. constructor; [exact Hw|exact Hacc].
+Qed.
+Lemma src_win_collect_eq p ws : forall v, Forall wf_win ws -> Forall addr_nonneg v ->
+  RM.C11.Driver.src_win_collect p v ws = win_collect (rev v) ws.
+Proof.
+  induction ws as [|w t IH]; intros v Hws Hv; [cbn; rewrite rev_involutive; reflexivity|].
+  inversion Hws as [|? ? Hw Ht]; subst. destruct Hw as [Ha [Hs0 _]].
+  cbn [RM.C11.Driver.src_win_collect win_collect].
+  rewrite src_insert_win_stack_info_eq by (try assumption; exact Hv).
+  destruct (win_insert (rev v) w) as [acc'| | |] eqn:E; cbn [obind]; try reflexivity.
+  rewrite IH; [rewrite rev_involutive; reflexivity|exact Ht|].
+  apply Forall_rev. apply (win_insert_addr (rev v) w acc'); [apply Forall_rev; exact Hv|destruct Ha; assumption|exact E].
+Qed.
 Lemma src_build_symtab p rf : wf_file rf -> RM.C11.Driver.table_of_src p rf = build_symtab rf.
 Proof.
-  intros (Hf & _). unfold RM.C11.Driver.table_of_src, build_symtab, build_symtab_gen.
+  intros (Hf & _ & Hfd & Hfpo). unfold RM.C11.Driver.table_of_src, build_symtab, build_symtab_gen.
   rewrite src_finish_funcs_eq by exact Hf. cbn [app].
+  rewrite !src_win_collect_eq by (try assumption; constructor). cbn [rev].
   destruct (finish_funcs_gen true (rf_funcs rf)); reflexivity.
 Qed.
 
 Lemma compiled_source_tie :
+  (forall p v w, u64 (w_addr w) -> 0 <= w_size w -> Forall (fun e : range * win_rec => 0 <= w_addr (snd e)) v ->
+     src_insert_win_stack_info p v w = do acc <- win_insert (rev v) w; Ret (rev acc)) /\
   (forall p acc cur lines inls, u64 (fn_addr cur) -> u32 (fn_size cur) -> Forall wf_line lines ->
      src_finish_function p acc cur lines inls =
      do r <- finish_func (mk_fraw (fn_addr cur) (fn_size cur) (fn_psize cur) (fn_name cur) lines inls);
@@ -322,7 +374,7 @@ Lemma compiled_source_tie :
      fill_symbol p st mbase instr <> OutOfFuel ->
      src_fill_symbol p fuel st mbase instr = fill_symbol p st mbase instr).
 Proof.
-  split; [exact src_finish_function_eq|].
+  split; [exact src_insert_win_stack_info_eq|]. split; [exact src_finish_function_eq|].
   split; [exact src_func_memory_range_eq|]. split; [exact src_win_memory_range_eq|].
   split; [exact src_get_inlinee_at_depth_eq|]. split; [exact src_get_outermost_sourceloc_eq|].
   split; [exact src_get_innermost_sourceloc_eq|]. split; [exact src_find_nearest_public_eq|].
